@@ -638,17 +638,6 @@ func (t *timeline) run() {
 			t.unmodelled = true
 			w.count("raw_mutation")
 		}
-		if !exp.OK && exp.FailAt > 0 && t.r.plan.Prop != "C14" {
-			// a multi-row statement that must be refused at a later row: the
-			// trigger of the open finding F-C14-partial-multirow. Outside the
-			// C14 check such statements are not generated; one can still arise
-			// when a crash image adopted another admissible state than the
-			// generator assumed. The run ends here (counted, not a violation).
-			t.r.res.Abandoned = "statement would trigger F-C14-partial-multirow"
-			w.count("abandoned_c14_trigger")
-			t.stop = true
-			break
-		}
 		w.BeginStmt(i, s.Kind, in)
 		res := t.exec(s)
 		recOps := append([]byte(nil), w.stmtRecOps...)
@@ -743,7 +732,7 @@ func (t *timeline) run() {
 			case "wal":
 				im.Admissible = []*Model{before}
 				im.AdmNames = []string{"before"}
-				if exp.OK {
+				if exp.OK || exp.FailAt > 0 {
 					for k := 1; k <= exp.NOps; k++ {
 						c := before.Clone()
 						exp.ApplyPrefix(c, k)
